@@ -24,7 +24,7 @@ rc, out = sh(['git', '-C', '/repo', 'worktree', 'add', '-q', '--detach', wt, 'HE
 res = {'seed': sid, 'property': prop, 'repo_head': sh('git -C /repo rev-parse --short HEAD')[1].strip(), 'at': time.strftime('%Y-%m-%d %H:%M:%S')}
 try:
     demos = []
-    for f in glob.glob(src + '/*_test.go'):
+    for f in sorted(glob.glob(src + '/*_test.go') + glob.glob(src + '/*/*_test.go')):
         pkg = re.search(r'^package\s+(\w+)', open(f).read(), re.M).group(1)
         d = PKGDIR.get(pkg)
         if d is None: raise SystemExit('unknown package %s in %s' % (pkg, f))
@@ -73,9 +73,12 @@ print(json.dumps(res, indent=1))
 if good:
     os.makedirs(dst, exist_ok=True)
     shutil.copy(src + '/patch.diff', dst + '/patch.diff')
-    for f, d in demos: shutil.copy(f, dst + '/' + os.path.basename(f))
+    def keepname(f):
+        rel = os.path.relpath(f, src)
+        return rel.replace('/', '__')
+    for f, d in demos: shutil.copy(f, dst + '/' + keepname(f))
     if os.path.exists(src + '/README.md'): shutil.copy(src + '/README.md', dst + '/README.md')
     meta = {'property': prop, 'breaks': 'see README.md (written by the independent agent that produced the change)',
-            'demo_files': [{'file': os.path.basename(f), 'goes_in': d} for f, d in demos],
+            'demo_files': [{'file': keepname(f), 'goes_in': d, 'as': os.path.basename(f)} for f, d in demos],
             'confirmed_by': 'tools/seedkeep.py in a scratch worktree of /repo', 'result': res}
     json.dump(meta, open(dst + '/meta.json', 'w'), indent=1)
